@@ -210,8 +210,35 @@ def _reduce_exp(c: G, r2: int, ex: Form):
     return c, r2, ex
 
 
+MODS: Dict[str, Tuple[Form, Fraction]] = {}     # opaque symbol -> (reduced form x, q) for  mod(x, q*pi) = x - k*q*pi, k integer
+
+
+def mod_atom(x: Poly, period: Poly) -> Poly:
+    """mod(x, P) for a real linear form x and P = q*pi: an opaque real symbol that `unwrap_mods` removes again
+    wherever the enclosing function has a period dividing c*P (c the coefficient the symbol carries there)"""
+    fx, fp = x.linear_form(), period.linear_form()
+    if len(fp) != 1 or fp[0][0] != "pi" or fp[0][1] <= 0:
+        raise Unfoldable("mod by something that is not a positive multiple of pi")
+    name = f"mod[{_fs(fx)}|{fp[0][1]}pi]"
+    MODS[name] = (fx, fp[0][1])
+    return Poly.sym(name)
+
+
+def unwrap_mods(f: Form, full_turn: Fraction = Fraction(2)) -> Form:
+    """inside a function of period full_turn*pi:  c*mod(x, q*pi) == c*x  whenever c*q is a multiple of full_turn"""
+    out: Form = ()
+    for k, v in f:
+        if k in MODS:
+            fx, q = MODS[k]
+            if (v * q / full_turn).denominator == 1:
+                out = form_add(out, unwrap_mods(tuple((a, b * v) for a, b in fx), full_turn))
+                continue
+        out = form_add(out, ((k, v),))
+    return out
+
+
 def trig(kind: str, arg: Poly) -> Poly:
-    f = arg.linear_form()
+    f = unwrap_mods(arg.linear_form())
     if not f:
         return Poly.const(1 if kind == "cos" else 0)
     sign = 1
@@ -223,7 +250,7 @@ def trig(kind: str, arg: Poly) -> Poly:
 
 
 def exp_i(arg: Poly) -> Poly:
-    f = arg.split_i_linear()
+    f = unwrap_mods(arg.split_i_linear())
     c, r2, ex = _reduce_exp((Fraction(1), Fraction(0)), 0, f)
     return Poly({(r2, (), (), ex, ()): c})
 
@@ -379,6 +406,10 @@ class Folder:
                 inv = b.scalar_inverse()
                 return a * inv if isinstance(a, Poly) else a.map(lambda x: x * inv)
             raise Unfoldable("division by matrix")
+        if op is ast.Mod:
+            if isinstance(a, Poly) and isinstance(b, Poly):
+                return mod_atom(a, b)
+            raise Unfoldable("mod of matrices")
         if op is ast.Pow:
             if isinstance(a, Poly) and isinstance(b, Poly) and b.t.keys() == {ONE} and b.t[ONE][1] == 0 and b.t[ONE][0].denominator == 1 and 0 <= b.t[ONE][0] <= 4:
                 out = Poly.const(1)
@@ -394,6 +425,15 @@ class Folder:
                 return r
         n = np_name(e.func) or (e.func.id if isinstance(e.func, ast.Name) else None) or (dotted(e.func) or "").split(".")[-1]
         args = e.args
+        # array-method forms of the same primitives:  x.conj(), x.conjugate(), x.transpose(), x.dot(y)
+        if isinstance(e.func, ast.Attribute) and np_name(e.func) is None and not e.keywords:
+            meth = e.func.attr
+            if meth in ("conj", "conjugate") and not args:
+                return self.call(ast.Call(func=ast.Attribute(value=ast.Name(id="jnp", ctx=ast.Load()), attr="conj", ctx=ast.Load()), args=[e.func.value], keywords=[]))
+            if meth == "transpose" and not args:
+                return self.fold(ast.Attribute(value=e.func.value, attr="T", ctx=ast.Load()))
+            if meth == "dot" and len(args) == 1:
+                return self.binop(ast.MatMult, self.fold(e.func.value), self.fold(args[0]))
         if n in ("array", "asarray") and args:
             v = self.fold(args[0])
             if isinstance(v, list) and v and all(isinstance(r, list) for r in v):
@@ -428,6 +468,11 @@ class Folder:
             raise Unfoldable("sqrt")
         if n in ("cos", "sin") and args:
             return trig(n, self.fold(args[0]))
+        if n in ("mod", "remainder", "fmod") and len(args) == 2:
+            a, b = self.fold(args[0]), self.fold(args[1])
+            if isinstance(a, Poly) and isinstance(b, Poly):
+                return mod_atom(a, b)
+            raise Unfoldable("mod of matrices")
         if n == "exp" and args:
             v = self.fold(args[0])
             if isinstance(v, Diag) and v.kind == "i-arange-times":
